@@ -97,7 +97,8 @@ def make_elements(kind, rng, shape, dtype, recipe=None):
     t = np.where(big_t[:, None], L.ld(gen.unit_vectors(rng, n, 0.2)) * L.ld(10.0 ** rng.integers(-6, 7, n))[:, None], t)
     sig = L.ld(rng.uniform(-1, 1, n))
     big_s = (rec == 4) | (rec == 6)
-    sg8 = np.where(rng.integers(0, 2, n) == 0, 8.0, rng.uniform(4, 8, n)) * rng.choice([-1.0, 1.0], n)
+    pick_s = rng.integers(0, 3, n)             # e^+-8 exactly, e^+-(4..8), e^+-(8..20): scales down to 2e-9 and up to 5e8
+    sg8 = np.select([pick_s == 0, pick_s == 1], [8.0 + 0 * pick_s, rng.uniform(4, 8, n)], rng.uniform(8, 20, n)) * rng.choice([-1.0, 1.0], n)
     sig = np.where(big_s, L.ld(sg8), sig)
     X = L.join_grp(kind, t, q, np.exp(sig))
     X = lie.lt(kind, np.asarray(X, dtype=np.float64).reshape(tuple(shape) + (L.GRP[kind],)), dtype)
